@@ -408,3 +408,17 @@ Theorem getitem_list_cells_refuted_for_gaps :
   exists (p q : list (axis R)), Forall valid p /\ getitem_list p [0%Z; 2%Z] = Ok q /\
     nthR 1 (bdry_vec (hd (mkAxis 0 0 []) q)) <> nthR 1 (bdry_vec (hd (mkAxis 0 0 []) p)).
 Proof. exact getitem_list_cells_refuted. Qed.
+
+(* T2. boundary_cell_fractions on ANY valid axis with >= 2 points (non-uniform included):
+   fraction * "natural" width of the outermost cell = actual width of that cell; both
+   fractions are >= 1/2, and = 1/2 exactly when the node lies on the boundary. *)
+Theorem boundary_cell_fractions_are_the_contained_fractions : forall ax : axis R,
+  valid ax -> (2 <= length (a_cs ax))%nat ->
+  let n := length (a_cs ax) in
+  let l := fst (bdry_fracs ax) in let r := snd (bdry_fracs ax) in
+  l * (nthR 1 (a_cs ax) - nthR 0 (a_cs ax)) = nthR 1 (bdry_vec ax) - nthR 0 (bdry_vec ax) /\
+  r * (nthR (n - 1) (a_cs ax) - nthR (n - 2) (a_cs ax)) = nthR n (bdry_vec ax) - nthR (n - 1) (bdry_vec ax) /\
+  1 / 2 <= l /\ 1 / 2 <= r /\
+  (l = 1 / 2 <-> nthR 0 (a_cs ax) = a_lo ax) /\ (r = 1 / 2 <-> nthR (n - 1) (a_cs ax) = a_hi ax).
+Proof. exact bdry_fracs_spec. Qed.
+Print Assumptions boundary_cell_fractions_are_the_contained_fractions.
